@@ -17,7 +17,7 @@ import (
 type header struct {
 	vocab    []lineJ
 	profiles map[string]profJ
-	init     []treeJ
+	init     [][]treeJ
 }
 
 func (h *header) config(c *caseJ) config {
@@ -145,11 +145,16 @@ func replay(root, cases, out, cli string, cliMax int, selfbug string) int {
 	h := readHeader(cases)
 	res := vutil.NewResult()
 	seed := vutil.Seed()
-	archPlain := archiveText(h.init, false)
-	archDup := archiveText(h.init, true)
+	var archPlain, archDup []string
+	for _, t := range h.init {
+		archPlain = append(archPlain, archiveText(t, false))
+		archDup = append(archDup, archiveText(t, true))
+	}
 	var seq int64
 	var cliRuns, cliSkipped int64
 	distinct := sync.Map{}
+	var sampleMu sync.Mutex
+	sampled := map[string]int{}
 	var nCases, nCli int64
 	// first pass only counts the cases eligible for the CLI so that the sample is even
 	if cli != "" && cliMax > 0 {
@@ -172,9 +177,12 @@ func replay(root, cases, out, cli string, cliMax int, selfbug string) int {
 		cfg := h.config(&c)
 		key := fmt.Sprintf("%v|%s|%v", c.Root.Coe, c.Root.Prof, c.Script)
 		rng := rand.New(rand.NewSource(seed*7919 + hash64(key)))
-		arch := archPlain
+		if prof.Arch < 1 || prof.Arch > len(archPlain) {
+			vutil.Fatalf("profile %s names archive %d", c.Root.Prof, prof.Arch)
+		}
+		arch := archPlain[prof.Arch-1]
 		if prof.Dup {
-			arch = archDup
+			arch = archDup[prof.Arch-1]
 		}
 		rd := renderScript(h.vocab, c.Script, arch, rng, true)
 		name := fmt.Sprintf("s%07d", atomic.AddInt64(&seq, 1))
@@ -237,8 +245,14 @@ func replay(root, cases, out, cli string, cliMax int, selfbug string) int {
 				res.DriftAdd(vutil.Finding{Kind: "fail-line-in-non-failing-run", What: fmt.Sprintf("log of a %s run names lines %v", r.Verdict, r.FailLines), Input: rd.Plain})
 			}
 			if len(c.Script) >= 2 {
-				res.Sample(map[string]interface{}{"config": cfg, "script": rd.Text, "verdict": r.Verdict, "fail_lines": r.FailLines,
-					"tree": treeString(r.Tree), "effects": r.Effects}, 6)
+				sampleMu.Lock()
+				take := sampled[r.Verdict] < 3
+				sampled[r.Verdict]++
+				sampleMu.Unlock()
+				if take {
+					res.Sample(map[string]interface{}{"config": cfg, "script": rd.Text, "verdict": r.Verdict, "fail_lines": r.FailLines,
+						"tree": treeString(r.Tree), "probe_observations": r.Effects}, 9)
+				}
 			}
 		}
 		// the standalone command on scripts that need nothing it does not have
